@@ -1734,6 +1734,7 @@ package main
 //@   uses kvtext split
 //@   modifies sipUri.Headers
 //@   ensures kept: forall j int :: 0 <= j && j < len(old(sipUri.Headers)) ==> sipUri.Headers[j] == old(sipUri.Headers)[j]
+//@   ensures decoded-prefix: len(sipUri.Headers) >= len(old(sipUri.Headers)) && len(sipUri.Headers) <= len(old(sipUri.Headers)) + len(split(s, "&")) && (forall j int :: 0 <= j && j < len(sipUri.Headers) - len(old(sipUri.Headers)) ==> sipUri.Headers[len(old(sipUri.Headers)) + j] == kvOfText(split(s, "&")[j]))
 //@   ensures each-denotes: err == nil ==> len(sipUri.Headers) == len(old(sipUri.Headers)) + len(split(s, "&")) && (forall j int :: 0 <= j && j < len(split(s, "&")) ==> contains(split(s, "&")[j], "=") && sipUri.Headers[len(old(sipUri.Headers)) + j] == kvOfText(split(s, "&")[j]))
 //@   loop 0:
 //@     invariant 0 <= $i && $i <= len(split(s, "&")) && len(sipUri.Headers) == len(old(sipUri.Headers)) + $i
@@ -1754,3 +1755,17 @@ package main
 //@ func (*ByteArrayPool).Free
 //@   props C10
 //@   releases b
+
+//@ func ParseSipURI
+//@   props C14
+//@   uses kvtext split uritext
+//@   ensures not-sip: !hasPrefix(uri, "sip:") && !hasPrefix(uri, "sips:") ==> err != nil && result == nil
+//@   ensures scheme: hasPrefix(uri, "sip:") || hasPrefix(uri, "sips:") ==> err == nil && result != nil && fresh(result) && result.Scheme == (hasPrefix(uri, "sip:") ? "sip" : "sips")
+//@   ensures no-params: err == nil && !contains(uriNoHdr(uriBody(uri)), ";") ==> len(result.Parameters) == 0
+//@   ensures params: err == nil && contains(uriNoHdr(uriBody(uri)), ";") ==> len(result.Parameters) == len(split(uriParamPart(uriNoHdr(uriBody(uri))), ";"))
+//@        && (forall j int :: 0 <= j && j < len(result.Parameters) ==> result.Parameters[j] == kvOfText(split(uriParamPart(uriNoHdr(uriBody(uri))), ";")[j]))
+//@   ensures no-headers: err == nil && !contains(uriBody(uri), "?") ==> len(result.Headers) == 0
+//@   ensures headers: err == nil && contains(uriBody(uri), "?") ==> len(result.Headers) <= len(split(uriHdrPart(uriBody(uri)), "&"))
+//@        && (forall j int :: 0 <= j && j < len(result.Headers) ==> result.Headers[j] == kvOfText(split(uriHdrPart(uriBody(uri)), "&")[j]))
+//@   ensures user: err == nil ==> (let ui == uriUserInfo(uriCore(uriNoHdr(uriBody(uri)))) :: (!contains(ui, ":") ==> result.User == ui && result.Password == "") && (contains(ui, ":") ==> result.User == ui[0:indexOf(ui, ":")] && result.Password == ui[indexOf(ui, ":")+1:]))
+//@   ensures host: err == nil ==> (let hp == uriHostPort(uriCore(uriNoHdr(uriBody(uri)))) :: (!contains(hp, ":") ==> result.Host == hp && result.port == 0) && (contains(hp, ":") ==> result.Host == hp[0:indexOf(hp, ":")] && (atoiOk(hp[indexOf(hp, ":")+1:]) ==> result.port == atoiVal(hp[indexOf(hp, ":")+1:]))))
